@@ -21,6 +21,10 @@ CLAIMED = {
         text='Deductive proof that Ty::get_max_int_size accepts exactly the u64 literals that fit each integer type (all widths, distinct wrappers), and that finalize_int maps {int}/{uint} to i32. Partial: literal text parsing and the checker\'s call sites are outside the verifier\'s reach.',
         note='Partial claim: only the range limit and the defaulting clause. lower_int_literal / escapes / float literals are not under contract; isize/usize are taken as 64-bit.',
         ref='DESIGN.md 5 (C09)'),
+    'C10': dict(
+        text='Deductive proof over the real text of compile_unreachable, compile_unreachablez, the part of the Expr::Index arm of compile_expr_with_args after its operands are compiled, and the tagged branch of #unwrap (both lifted mechanically), plus Ty::{as_array,is_array,is_slice} and FinalTy::into_real_type: for every array/slice type, index type and index value, the emitted code compares the index -- read by its own signedness and widened to 64 bits -- unsigned with the length (the array type\'s length, or the first word of the slice value); everything after the comparison, including the element access at data + index*stride(element), is emitted in a block reached only when index < length; the other edge runs exactly puts(message); exit(1); trap and no store; the only reads before the check are the two words of the slice value. #unwrap on a tagged sum type compares the stored tag byte at the layout\'s discriminant offset with the requested variant\'s discriminant and reads the payload only behind that check.',
+        note='Trusted: Cranelift control-flow shim (facts of a block = facts of its single incoming edge, shims/verus/clif_cf.rs), libc puts/exit, cast_ty_to_cranelift contract (proved in unit numeric), layout contracts (unit layout). Assumed path conditions of the lifted ranges: operands carry their types, source is the address of the array/slice value, a slice value holds (length, data pointer). Not covered: the recursive compile_expr calls that produce the operands, the pointer-deref loop in front of the range, the compile-time diagnostic for constant indices, the nullable-pointer branch of #unwrap, get_tagged_union_discrim, unwrap_sum_ty (assumed to read at most the payload), message texts.',
+        ref='DESIGN.md 5 (C10)'),
     'C13': dict(
         text='Deductive proof over the real text of Ty::can_fit_into and Ty::is_functionally_equivalent_to (arms outside the Verus dialect elided and treated as unknown): for all types, two nominal types of the same kind with different uids never mix; nothing nominal fits into a different enum variant; a distinct/variant fits neither a named struct, nor a foreign enum, nor its own (plain) underlying type; a named struct does not fit an enum; a variant fits its own enum. The clause "variant / named struct into a distinct wrapper" fails by design and is a recorded known finding.',
         note='Partial: implicit-acceptance clause only (can_fit_into). Ty::max, can_cast_to and the checker call sites (expect_match) are not under contract; `==` on Ty is assumed structural; elided arms: anonymous struct -> named struct, function types.',
@@ -70,7 +74,6 @@ NOT_APPLICABLE = {
 # properties that are planned but whose unit is not built yet are listed as not applicable
 # until the check exists (a manifest entry must never point at a check that cannot run)
 PENDING = {
-    'C10': 'unit not built yet (index / #unwrap guards)',
     'C19': 'unit not built yet (SysV classification)',
     'C25': 'unit not built yet (LineIndex::line_col)',
 }
